@@ -144,6 +144,10 @@ class Tape:
         return self._orig[key](*a, **k)
 
     def _emit(self, kind, rng, val, api):
+        if isinstance(rng, np.integer):       # the code passed a NumPy integer as range (e.g. a size given as np.int16)
+            rng = int(rng)
+        if isinstance(val, np.integer):
+            val = int(val)
         ev = {"k": "draw", "kind": kind, "range": rng, "v": val, "api": api}
         self.log.append(ev)
         if self.sink:
@@ -165,6 +169,8 @@ class Tape:
         return v
 
     def _uniform(self, m, api, orig):
+        if isinstance(m, np.integer):
+            m = int(m)
         if m <= 0:
             raise ValueError("empty range for %s" % api)
         if self.mode == "script":
